@@ -118,7 +118,7 @@ def gen_case(rng):
 def run(res):
     vh, exe = P.base(res, PROP)
     rng = random.Random(res.seed)
-    pairs = [gen_case(rng) for _ in range(1500 if res.tier == "quick" else 30000)]
+    pairs = [gen_case(rng) for _ in range(1500 if res.tier == "quick" else 150000)]
     errs = [(".macro m\n nop\n.endm\n undefined_macro_call\n", "undefined-macro"),
             (".macro m\n ldi r16, @0\n.endm\n m\n", "missing-argument"),
             (".macro m\n ldi @0, @1\n.endm\n m r16\n", "missing-argument"),
